@@ -215,6 +215,9 @@ func (r *replayer) startCall(c int, kind string) bool {
 		raw := make([]byte, rawLen)
 		r.rng.Read(raw)
 		cf := Cfg{Raw: B(raw), Hash: r.rng.Intn(3), Digits: 4 + r.rng.Intn(7), C: mask&1 != 0, Q: true, S: mask&8 != 0, Chal: 1}
+		if r.sid%4 >= 2 {
+			cf = r.sharedCfg(kind) // all calls of this schedule with this kind use ONE suite
+		}
 		in := otp.OCRAInput{Counter: W64(r.rng.Uint64()), Challenge: make([]byte, 8+r.rng.Intn(100)), SessionInfo: make([]byte, r.rng.Intn(100))}
 		r.rng.Read(in.Challenge)
 		r.rng.Read(in.SessionInfo)
@@ -473,6 +476,9 @@ func (r *replayer) buildArgs(c int, kind string) Event {
 	raw := make([]byte, rawLen)
 	r.rng.Read(raw)
 	cf := Cfg{Raw: B(raw), Hash: r.rng.Intn(3), Digits: 4 + r.rng.Intn(7), C: mask&1 != 0, Q: true, S: mask&8 != 0, Chal: 1}
+	if r.sid%4 >= 2 {
+		cf = r.sharedCfg(kind)
+	}
 	in := otp.OCRAInput{Counter: W64(r.rng.Uint64()), Challenge: make([]byte, 8+r.rng.Intn(100)), SessionInfo: make([]byte, r.rng.Intn(100))}
 	r.rng.Read(in.Challenge)
 	r.rng.Read(in.SessionInfo)
@@ -480,6 +486,22 @@ func (r *replayer) buildArgs(c int, kind string) Event {
 	e.Secret = S(secret)
 	e.X = map[string]any{"su": cfgSuiteArg(cf).su, "in": inOf(in)}
 	return e
+}
+
+// sharedCfg is the one suite all OCRA calls of kind `kind` use in the current schedule (deterministic in the
+// schedule id, independent of the per-call random stream).
+func (r *replayer) sharedCfg(kind string) Cfg {
+	n := 20
+	mask := 1 | 2
+	if kind == "long" {
+		n = 220
+		mask = 1 | 2 | 8
+	}
+	raw := make([]byte, n)
+	for i := range raw {
+		raw[i] = byte(65 + (r.sid*7+i*3)%26)
+	}
+	return Cfg{Raw: B(raw), Hash: r.sid % 3, Digits: 4 + r.sid%7, C: mask&1 != 0, Q: true, S: mask&8 != 0, Chal: 1}
 }
 
 func cmdReplayPools(args []string) {
